@@ -62,14 +62,27 @@ pub fn gcc_response_channels(p: &SrvParams, ids: &[u16], pad: bool) -> Vec<u8> {
     cat(&[&[0x00, 0x05, 0x00, 0x14, 0x7c, 0x00, 0x01], &perlen(tail.len()), &tail])
 }
 fn ber_len(n: usize) -> Vec<u8> { if n < 0x80 { vec![n as u8] } else if n < 0x100 { vec![0x81, n as u8] } else { vec![0x82, (n >> 8) as u8, n as u8] } }
-pub fn connect_response(p: &SrvParams) -> Vec<u8> {
-    let gcc = gcc_response(p);
+pub fn connect_response(p: &SrvParams) -> Vec<u8> { connect_response_form(p, 0) }
+/// BER length in a chosen form: 0 = shortest (DER), 1 = long form with one more octet than needed
+/// (0x81 n for n < 128, 0x82 0 n ...), 2 = always 0x82 hi lo (what Windows servers emit)
+pub fn ber_len_form(n: usize, form: u8) -> Vec<u8> {
+    match form {
+        0 => ber_len(n),
+        1 => if n < 0x80 { vec![0x81, n as u8] } else if n < 0x100 { vec![0x82, 0, n as u8] } else { vec![0x83, 0, (n >> 8) as u8, n as u8] },
+        _ => vec![0x82, (n >> 8) as u8, n as u8],
+    }
+}
+/// the MCS connect response with every constructed / string length in the given BER form
+/// (BER permits any of them; a conforming client reads all)
+pub fn connect_response_form(p: &SrvParams, form: u8) -> Vec<u8> { x224_data(&connect_response_body(&gcc_response(p), form)) }
+pub fn connect_response_body(gcc: &[u8], form: u8) -> Vec<u8> {
+    let dp = [0x02u8, 0x01, 0x16, 0x02, 0x01, 0x03, 0x02, 0x01, 0x00, 0x02, 0x01, 0x01, 0x02, 0x01, 0x00, 0x02, 0x01, 0x01, 0x02, 0x03, 0x00, 0xff, 0xf8, 0x02, 0x01, 0x02];
     let body = cat(&[
         &[0x0a, 0x01, 0x00, 0x02, 0x01, 0x00],
-        &[0x30, 0x1a, 0x02, 0x01, 0x16, 0x02, 0x01, 0x03, 0x02, 0x01, 0x00, 0x02, 0x01, 0x01, 0x02, 0x01, 0x00, 0x02, 0x01, 0x01, 0x02, 0x03, 0x00, 0xff, 0xf8, 0x02, 0x01, 0x02],
-        &[0x04], &ber_len(gcc.len()), &gcc,
+        &[0x30], &ber_len_form(dp.len(), form), &dp,
+        &[0x04], &ber_len_form(gcc.len(), form), gcc,
     ]);
-    x224_data(&cat(&[&[0x7f, 0x66], &ber_len(body.len()), &body]))
+    cat(&[&[0x7f, 0x66], &ber_len_form(body.len(), form), &body])
 }
 pub fn license_valid(p: &SrvParams) -> Vec<u8> {
     if p.license_new { vec![0x80, 0, 0, 0, 0x03, 0x03, 0x04, 0x00] }
